@@ -1,5 +1,5 @@
 package main
 
 func init() {
-	mirror("zip.strtofold", "zip.isvendoredpackage", "zip.checkfiles", "zip.create", "zip.checkzip", "zip.unzip")
+	mirror("zip.strtofold", "zip.isvendoredpackage", "zip.checkfiles", "zip.create", "zip.checkzip", "zip.unzip", "zip.checkdir", "zip.createfromdir")
 }
